@@ -45,6 +45,38 @@ pub fn eval(op: &str, a: &[&str]) -> Option<String> {
             }
             out
         }
+        "c05.memo" => {
+            // the memoising checkers as they are: a history of queries sharing ONE gamma; answers, then the final contents of gamma
+            let e = env_from_sx(a[0]); let te = to_env(&e);
+            let mut g = Gamma::new();
+            let mut out = String::new();
+            let mut stopped = false;
+            for q in sx::parse(a[2]).list() {
+                let (x, y) = (T::from_sx(&q.list()[0]).to_type(), T::from_sx(&q.list()[1]).to_type());
+                let r = std::panic::catch_unwind(std::panic::AssertUnwindSafe(|| match a[1] {
+                    "equal" => equal(&mut g, &te, &x, &y).is_ok(),
+                    "error" => subtype_with_config(OptReport::Error, &mut g, &te, &x, &y).is_ok(),
+                    _ => subtype_with_config(OptReport::Silence, &mut g, &te, &x, &y).is_ok(),
+                }));
+                match r { Ok(v) => out.push_str(b(v)), Err(_) => { out.push('P'); stopped = true; break; } }
+            }
+            if !stopped {
+                let mut ps: Vec<String> = g.iter().map(|(x, y)| format!("({} {})", T::from_type(x).sx(), T::from_type(y).sx())).collect();
+                ps.sort();
+                out.push_str(" | "); out.push_str(&ps.join(" "));
+            }
+            out
+        }
+        "p.c05.order" => {
+            // the answer does not depend on the order of fields / methods: a[1..3] the pair, a[3..5] the same pair with shuffled lists
+            let e = env_from_sx(a[0]);
+            let (x, y, x2, y2) = (ty_of(a[1]), ty_of(a[2]), ty_of(a[3]), ty_of(a[4]));
+            let want = sub(&e, &x, &y);
+            if sub(&e, &x2, &y2) != want { return Some(format!("FAIL subtype answers {} on the sorted lists and {} on a permutation", want, !want)); }
+            let mut g = Gamma::new();
+            if subtype_check_all(&mut g, &to_env(&e), &x2.to_type(), &y2.to_type()).is_empty() != want { return Some("FAIL the report disagrees on a permutation".into()); }
+            "ok".into()
+        }
         "c05.compat" | "c05.compat_report" | "c05.service_equal" => {
             // new = (env1, actor1), old = (env2, actor2)
             let (e1, a1, e2, a2) = (env_from_sx(a[0]), ty_of(a[1]), env_from_sx(a[2]), ty_of(a[3]));
@@ -208,8 +240,45 @@ fn gen_memo_stress(r: &mut Rng) -> (Env, Vec<(T, T)>) {
     (all, qs)
 }
 
+/// the same recursive type spelled with its name at another point of the cycle: for `A = body` and a composite sub-term S of body,
+/// K = S[A := body[S := K]] and A2 = body[S := K] denote the same (infinite) type as A, but walking A against A2 never has a name on
+/// both sides at once
+fn gen_reanchor(r: &mut Rng) -> Option<(Env, Vec<(T, T)>)> {
+    let cfg = GenCfg { max_depth: 3, refs: r.coin(1, 4), var_bias: 7 };
+    let k = r.range(1, 3) as usize;
+    let mut e = gen_env(r, k, &cfg);
+    let idx = r.below(k as u64) as usize;
+    let (a, body) = e[idx].clone();
+    let cands: Vec<T> = body.proper_subterms().into_iter().filter(|s| s.mentions(&a)).collect();
+    if cands.is_empty() { return None; }
+    let s = r.pick(&cands[..]).clone();
+    let (kname, a2) = (format!("{}k", a), format!("{}2", a));
+    let body2 = body.replace_subterm(&s, &T::var(&kname));
+    let kdef = { let f = |x: &str| x.to_string(); let _ = f; subst_var(&s, &a, &body2) };
+    e.push((kname.clone(), kdef)); e.push((a2.clone(), body2));
+    let mut qs = vec![(T::var(&a), T::var(&a2)), (T::var(&a2), T::var(&a)), (T::vec(T::var(&a)), T::vec(T::var(&a2))), (T::var(&kname), s.clone()), (s, T::var(&kname))];
+    if r.coin(1, 2) { qs.reverse(); }
+    Some((e, qs))
+}
+fn subst_var(t: &T, name: &str, with: &T) -> T { t.replace_subterm(&T::var(name), with) }
+
 pub fn generate(thorough: bool, r: &mut Rng, em: &mut Emit) {
     let scale = if thorough { 12 } else { 1 };
+    // ---- names at shifted points of a cycle
+    for _ in 0..150 * scale {
+        if let Some((e, qs)) = gen_reanchor(r) {
+            let es = env_sx(&e);
+            em.stat("reanchored-cycle");
+            for (x, y) in &qs {
+                em.case_nt("c05.sub", &[es.clone(), x.sx(), y.sx()], true);
+                em.case_nt("c05.equal", &[es.clone(), x.sx(), y.sx()], true);
+                em.case_nt("c05.checkall", &[es.clone(), x.sx(), y.sx()], true);
+            }
+            em.case_nt("m.c05.memo", &[es.clone(), "silence".into(), queries_sx(&qs)], true);
+            em.case_nt("m.c05.memo", &[es.clone(), "equal".into(), queries_sx(&qs)], true);
+            em.case_nt("c05.seq_checkall", &[es.clone(), queries_sx(&qs)], true);
+        }
+    }
     for _ in 0..60 * scale {
         let (e, qs) = gen_memo_stress(r);
         let es = env_sx(&e);
@@ -223,6 +292,7 @@ pub fn generate(thorough: bool, r: &mut Rng, em: &mut Emit) {
         em.case_nt("c05.seq_checkall", &[es.clone(), queries_sx(&qs)], true);
         em.case_nt("c05.seq_equal", &[es.clone(), queries_sx(&qs)], true);
         em.case_nt("p.c05.history", &[es.clone(), queries_sx(&qs)], true);
+        for mode in ["silence", "error", "equal"] { em.case_nt("m.c05.memo", &[es.clone(), mode.into(), queries_sx(&qs)], true); }
     }
     let nontrivial = |x: &T, y: &T| x.mentions_var() || y.mentions_var() || x.has_opt() || y.has_opt() || x.size() + y.size() > 4;
     // ---- corpus first
@@ -235,6 +305,7 @@ pub fn generate(thorough: bool, r: &mut Rng, em: &mut Emit) {
         em.case_nt("c05.seq", &[env_sx(&e), queries_sx(&qs)], true);
         em.case_nt("c05.seq_checkall", &[env_sx(&e), queries_sx(&qs)], true);
         em.case_nt("p.c05.history", &[env_sx(&e), queries_sx(&qs)], true);
+        for mode in ["silence", "error", "equal"] { em.case_nt("m.c05.memo", &[env_sx(&e), mode.into(), queries_sx(&qs)], true); }
         let mut rev = qs.clone(); rev.reverse();
         em.case_nt("c05.seq", &[env_sx(&e), queries_sx(&rev)], true);
         em.case_nt("p.c05.history", &[env_sx(&e), queries_sx(&rev)], true);
@@ -277,6 +348,21 @@ pub fn generate(thorough: bool, r: &mut Rng, em: &mut Emit) {
         em.case_nt("c05.seq_equal", &[es.clone(), queries_sx(&qs)], true);
         em.case_nt("c05.seq_checkall", &[es.clone(), queries_sx(&qs)], true);
         em.case_nt("p.c05.history", &[es.clone(), queries_sx(&qs)], true);
+        em.case_nt("m.c05.memo", &[es.clone(), (*r.pick(&["silence", "error", "equal"])).into(), queries_sx(&qs)], true);
+        // field / method lists in another order (types built by hand need not be sorted): same answers
+        {
+            let e2: Env = e.iter().map(|(n, t)| (n.clone(), t.shuffled(r))).collect();
+            let es2 = env_sx(&e2);
+            for (x, y) in pairs.iter().take(5) {
+                let (x2, y2) = (x.shuffled(r), y.shuffled(r));
+                em.stat("pair.shuffled-lists");
+                em.case_nt("c05.sub", &[es2.clone(), x2.sx(), y2.sx()], true);
+                em.case_nt("c05.checkall", &[es2.clone(), x2.sx(), y2.sx()], true);
+                em.case_nt("p.c05.order", &[es.clone(), x.sx(), y.sx(), x2.sx(), y2.sx()], true);
+            }
+            let qs2: Vec<(T, T)> = qs.iter().map(|(x, y)| (x.shuffled(r), y.shuffled(r))).collect();
+            em.case_nt("m.c05.memo", &[es2.clone(), "silence".into(), queries_sx(&qs2)], true);
+        }
         // chains for transitivity, only where no type mentions `null` (see the known finding)
         if e.iter().all(|d| no_null(&d.1)) {
             for _ in 0..3 {
